@@ -34,6 +34,18 @@ def main():
             print("replay %s: %s" % (args.replay, "FAILS (violation reproduced)" if rc else "passes"))
             return rc
         mod.run(ctx)
+        # replay tier: saved minimal inputs of earlier findings (regress/<ID>/*.json)
+        rdir = os.path.join(core.VERIF, "regress", pid)
+        if os.path.isdir(rdir):
+            for fn in sorted(os.listdir(rdir)):
+                if fn.endswith(".json"):
+                    with open(os.path.join(rdir, fn)) as fp:
+                        rec = json.load(fp)
+                    before = len(ctx.violations)
+                    mod.replay(ctx, rec)
+                    ctx.case(label="regress-replay")
+                    if len(ctx.violations) > before:
+                        print("  (saved regression input %s fails again)" % fn)
         return ctx.finish()
     except core.HarnessError as e:
         print("HARNESS-ERROR %s: %s" % (pid, e))
